@@ -206,7 +206,8 @@ struct World {
     vsched::name_object(&(mgr->min_epoch_), "M");
     for (size_t i = 0; i < kN; ++i) {
       vsched::name_object(&(::dbgroup::thread::_id_vec[i]), "I" + std::to_string(i));
-      vsched::name_object(&(mgr->tls_fields_[i].epoch.entered_), "E" + std::to_string(i));
+      // the pinned-epoch word is the one atomic member of the Epoch object: named through the object, not the private member
+      vsched::name_range(&(mgr->tls_fields_[i].epoch), sizeof(mgr->tls_fields_[i].epoch), "E" + std::to_string(i));
       vsched::name_object(&(mgr->tls_fields_[i].heartbeat), "H" + std::to_string(i));
     }
     guards = std::vector<EpochGuard>(sc.nvars);
